@@ -31,12 +31,29 @@ NXW = "dendropy.dataio.nexuswriter"
 
 
 # ----------------------------------------------------------------------------- extraction
+class NotLiteral(Exception):
+    pass
+
+
+def _regex_text(node, module_tree, depth=0):
+    """the pattern text an expression denotes: a string literal, re.compile(<that>), or a module-level name bound once to one of these"""
+    if isinstance(node, ast.Constant) and isinstance(node.value, str):
+        return node.value
+    if isinstance(node, ast.Call) and ast.unparse(node.func) in ("re.compile", "compile") and node.args:
+        return _regex_text(node.args[0], module_tree, depth)
+    if isinstance(node, ast.Name) and depth < 4:
+        binds = [st for st in module_tree.body if isinstance(st, ast.Assign) and any(isinstance(t, ast.Name) and t.id == node.id for t in st.targets)]
+        if len(binds) == 1:
+            return _regex_text(binds[0].value, module_tree, depth + 1)
+    raise NotLiteral("protect_regex is not a literal pattern (nor a module-level name bound once to one): %s" % ast.unparse(node)[:80])
+
+
 def default_protect_regex():
     m, ci, fn = frontend.resolve(NP + ":escape_nexus_token")
     names = [a.arg for a in fn.args.args]
     i = names.index("protect_regex")
     d = fn.args.defaults[i - (len(names) - len(fn.args.defaults))]
-    return ast.literal_eval(d)
+    return _regex_text(d, frontend.module(NP).tree)
 
 
 def call_site_regexes():
@@ -49,7 +66,7 @@ def call_site_regexes():
                 rx = None
                 for k in node.keywords:
                     if k.arg == "protect_regex":
-                        rx = ast.literal_eval(k.value)
+                        rx = _regex_text(k.value, m.tree)
                 out.append((modname.split(".")[-1], node.lineno, rx))
     return out
 
@@ -286,9 +303,16 @@ def t1(ctx):
         return
     ctx.add_function(NP + ":escape_nexus_token")
     ctx.add_function(NP + ":NexusTokenizer.__init__")
-    d = default_protect_regex()
-    sites = call_site_regexes()
-    if not sites:
+    try:
+        d = default_protect_regex()
+        sites = call_site_regexes()
+    except NotLiteral as e:
+        # the writers no longer pass a pattern the extraction can read: the obligation is not decided here (the bounded driver still runs)
+        ctx.obligation("writers.protect_regex[extractable]", "unsupported", "ast-scan", 0.0, NW, detail=str(e))
+        ctx.functions_out_of_subset.append("protect_regex extraction: %s" % e)
+        ctx.undecided_ob("writers.protect_regex[extractable]", str(e))
+        d, sites = None, []
+    if not sites and d is not None:
         ctx.checker_failure("no escape_nexus_token call sites found in the writers")
     seen = {}
     for mod, line, rx in sites:
